@@ -472,9 +472,11 @@ func (g *semGen) cmd(d int) string {
 	case 8:
 		// {for} over a range: one to three arguments, the step a positive literal
 		var args string
-		lim := g.intE(1)
+		var lim string
 		if g.loops > 0 {
 			lim = fmt.Sprintf("%d", g.r.Intn(4)) // inside a loop: a few iterations (the driver's evaluator is a list machine)
+		} else {
+			lim = g.intE(1)
 		}
 		switch g.r.Intn(3) {
 		case 0:
